@@ -140,7 +140,7 @@ func cmdFunc(args []string) {
 					mark = "FAIL"
 				}
 				fmt.Printf("   %s %-60s %-10s %-12s %.2fs %dB\n", mark, strings.TrimPrefix(r.Name, key), r.Status, r.Solver, r.Secs, r.Bytes)
-				if r.Status != "discharged" {
+				if r.Status != "discharged" || os.Getenv("GVC_DUMPALL") != "" {
 					fmt.Printf("        %s\n", r.Info)
 					if *dump != "" {
 						os.MkdirAll(*dump, 0o755)
